@@ -1,0 +1,13 @@
+//go:build !verif
+
+package netty
+
+import "context"
+
+// No-op counterparts of the verification hooks (see verif_on.go): without the
+// build tag `verif` the call sites compile to nothing.
+
+func (c *channel) vp(point string, enabled func() bool)      {}
+func (c *channel) vpPoll() bool                              { return false }
+func (c *channel) verifSelectReady(ctx context.Context) bool { return true }
+func (c *channel) verifLockFree() bool                       { return true }
